@@ -219,6 +219,9 @@ func traceOf(id int, text string, cps []int, o *Outcome) []json.RawMessage {
 	if len(lexers) > 1 {
 		add(traceEv{Ev: "extra-lexer"})
 	}
+	if o.Overflow {
+		add(traceEv{Ev: "event-overflow"})
+	}
 	add(traceEv{Ev: "ret", Ret: o.Ret, Root: o.Root, Exited: o.Exited, Leak: o.Leak})
 	return out
 }
@@ -305,7 +308,14 @@ func walk(n parse.Node) WTree {
 		w.Col, _ = strconv.Atoi(m[2])
 	}
 	for _, c := range n.Children() {
-		w.Subs = append(w.Subs, walk(c))
+		cw := walk(c)
+		// Under a choice the parser wraps a shorthand member X in a node `case X` that is not in the source: it has
+		// exactly the member as child and sits at the member's own position.  Such a wrapper counts as the member.
+		if n.Statement() == "choice" && c.Statement() == "case" && len(cw.Subs) == 1 &&
+			cw.Line == cw.Subs[0].Line && cw.Col == cw.Subs[0].Col && equalInts(cw.Arg, cw.Subs[0].Arg) {
+			cw = cw.Subs[0]
+		}
+		w.Subs = append(w.Subs, cw)
 	}
 	return w
 }
